@@ -24,7 +24,7 @@ MANIFEST = dict(
     note="Speeds and times are dyadic (1/4 tick units) so comparisons are exact. Speed changes in the clock model are zero-length tweens, immediate or delayed by a number of frames; tweens of non-zero length (1-7 buffers, both units on either side) are observed buffer by buffer and judged by TLC against the reference integral with a tolerance of a few 1e-4 ticks (P_C05T) (the code integrates them stepwise per chunk; the statement gives no tolerance). A stop() overlapping a callback's command reads is explored at the granularity of its two command writes (cmd.w / cmd.r yield points); a stop() overlapping a time() read (second writer of the two published words) is not. Known findings D10 (torn read) and D11 (own-time speed change never fires) are listed in known_findings.json; the missing-clock cancellation is covered by C03.")
 
 
-def cfg(b, ns, speeds, targets, maxcmd, maxcb, maxrd, maxsched, own, extra, spec=None, delays=(), racy=False, reset_first=True):
+def cfg(b, ns, speeds, targets, maxcmd, maxcb, maxrd, maxsched, own, extra, spec=None, delays=(), racy=False, reset_first=True, write_reset_first=False):
     return """SPECIFICATION %s
 CONSTANTS
   B = %d
@@ -39,10 +39,11 @@ CONSTANTS
   OwnTime = %s
   Racy = %s
   ResetFirst = %s
+  WriteResetFirst = %s
 %s
 CHECK_DEADLOCK FALSE
 """ % (spec or ("GSpec" if "D =" in extra else "Spec"), b, ", ".join(map(str, ns)), ", ".join(map(str, speeds)),
-       ", ".join(map(str, targets)), ", ".join(map(str, delays)), maxcmd, maxcb, maxrd, maxsched, "TRUE" if own else "FALSE", "TRUE" if racy else "FALSE", "TRUE" if reset_first else "FALSE", extra)
+       ", ".join(map(str, targets)), ", ".join(map(str, delays)), maxcmd, maxcb, maxrd, maxsched, "TRUE" if own else "FALSE", "TRUE" if racy else "FALSE", "TRUE" if reset_first else "FALSE", "TRUE" if write_reset_first else "FALSE", extra)
 
 
 def write_cfg(name, text):
@@ -102,6 +103,10 @@ def generate(tier, rng):
     # directed witness of D26 (fixed): the shortest schedule on which the read order before the fix loses the reset
     add(tlc_generate("Gen_Clock.tla", write_cfg("Gen_Clock_d26.cfg", cfg(2, [1, 3], [1, 2], [3], 3, 4, 0, 0, False,
         "  D = 40\nCONSTRAINT Bound\nVIEW GView\nINVARIANT WG_D26\n", racy=True, reset_first=False)), "bfs", tag="c05g")[:1], 2, [1, 2], "tlc-WG_D26")
+    # directed witness of the other half of that protocol: were stop() to write reset before set_ticking(false), the
+    # same property would break - the shortest such schedule is replayed on the real handle (which writes in the right order)
+    add(tlc_generate("Gen_Clock.tla", write_cfg("Gen_Clock_stoporder.cfg", cfg(2, [1, 3], [1, 2], [3], 3, 5, 0, 0, False,
+        "  D = 44\nCONSTRAINT Bound\nVIEW GView\nINVARIANT WG_D26\n", racy=True, write_reset_first=True)), "bfs", tag="c05g")[:1], 2, [1, 2], "tlc-WG_D26-write-order")
     # directed witnesses of the two known findings (shortest schedules)
     add(tlc_generate("Gen_Clock.tla", write_cfg("Gen_Clock_torn.cfg", cfg(2, [1, 3], [1, 2], [3], 2, 4, 2, 0, False,
         "  D = 40\nCONSTRAINT Bound\nVIEW GView\nINVARIANT WG_Torn\n")), "bfs", tag="c05g")[:1], 2, [1, 2], "tlc-WG_Torn")
@@ -113,7 +118,7 @@ def generate(tier, rng):
 def drift_of(scen, sessions):
     out = []
     for k, sc in enumerate(scen):
-        if sc["src"] == "tlc-WG_D26":
+        if sc["src"].startswith("tlc-WG_D26"):
             continue        # (generated from the model of the code before the fix: its events are those of the defect)
         evs = [e for e in sessions.get(k + 1, []) if e["a"] not in ("reset", "end")]
         for j, step in enumerate(sc["steps"]):
